@@ -121,7 +121,12 @@ func genAcctW(r *core.Rand, p *core.Plan) {
 	}
 	lastVariant := int64(r.Intn(len(importVariants)))
 	for i := 0; i < n; i++ {
-		switch r.Weighted([]int{14, 14, 8, 16, 12, 6, 8, 6, 5, 6, 5, 4}) {
+		switch r.Weighted([]int{14, 14, 8, 16, 12, 6, 8, 6, 5, 6, 5, 4, 4}) {
+		case 12: // passphrase changes through the wallet: both in one request, or one; right or wrong old passphrase
+			p.Ops = append(p.Ops, core.Op{K: "wchpass", A: []int64{int64(r.Intn(5))}})
+			if r.Chance(1, 2) {
+				p.Ops = append(p.Ops, core.Op{K: "stop"}, core.Op{K: "start"})
+			}
 		case 0: // preview
 			lastVariant = int64(r.Intn(len(importVariants)))
 			nprev := int64(r.Range(1, 4))
@@ -534,6 +539,123 @@ func (rs *runState) wunlock(step int) {
 	}
 	if x.w.Locked() {
 		x.fail("c05w:unlock-ignored", "the wallet is still locked after a successful Unlock")
+	}
+}
+
+// wchpass: passphrase changes through the wallet's own requests.
+// Wallet.ChangePassphrases is documented as changing both passphrases
+// atomically: when it returns an error (here: a wrong old private passphrase)
+// neither may have changed — in the running wallet and in what a restart
+// finds.
+func (rs *runState) wchpass(step int, op core.Op) {
+	x := rs.x
+	rs.chpassN++
+	newPub := []byte(fmt.Sprintf("public-%d", rs.chpassN))
+	newPriv := []byte(fmt.Sprintf("private-%d-%d", x.p.Seed%1000, rs.chpassN))
+	wrong := []byte("not the passphrase")
+	mode := int(uint64(op.Arg(0)) % 5)
+	var err error
+	wantFail := false
+	what := ""
+	switch mode {
+	case 0:
+		what = "ChangePassphrases"
+		err = x.w.ChangePassphrases(x.pubPass, newPub, x.privPass, newPriv)
+		if err == nil {
+			x.pubPass, x.privPass = newPub, newPriv
+		}
+	case 1:
+		what = "ChangePassphrases(wrong old private passphrase)"
+		wantFail = true
+		err = x.w.ChangePassphrases(x.pubPass, newPub, wrong, newPriv)
+	case 2:
+		what = "ChangePrivatePassphrase"
+		err = x.w.ChangePrivatePassphrase(x.privPass, newPriv)
+		if err == nil {
+			x.privPass = newPriv
+		}
+	case 3:
+		what = "ChangePublicPassphrase(wrong old passphrase)"
+		wantFail = true
+		err = x.w.ChangePublicPassphrase(wrong, newPub)
+	case 4:
+		what = "ChangePassphrases(wrong old public passphrase)"
+		wantFail = true
+		err = x.w.ChangePassphrases(wrong, newPub, x.privPass, newPriv)
+	}
+	x.env.Count("op.wchpass")
+	x.env.Eff()
+	x.env.Logf("%d wchpass %s err=%v", step, what, err)
+	pre := "c05w:"
+	if x.prop == "C10" {
+		pre = "c10w:"
+	}
+	report := x.prop == "C05" || x.prop == "C10"
+	if wantFail && err == nil {
+		if report {
+			x.fail(pre+"passphrase-change-accepted-wrong-old-passphrase", "%s succeeded", what)
+		}
+		x.violated = true
+		return
+	}
+	if !wantFail && err != nil {
+		if report {
+			x.fail(pre+"passphrase-change-failed:"+errClass(err), "%s with the current passphrases failed: %v", what, err)
+		}
+		x.violated = true
+		return
+	}
+	if wantFail {
+		x.env.Count("probe.passphrase-change-refused")
+	}
+	// what a restart would find
+	simrt.WaitIdle("harness:wchpass")
+	img, ierr := x.db.Image()
+	if ierr != nil {
+		x.env.Infra("image: %v", ierr)
+		return
+	}
+	rs.obsN++
+	path := filepath.Join(x.env.Dir, fmt.Sprintf("obs%d.db", rs.obsN%2))
+	if e := os.WriteFile(path, img, 0o600); e != nil {
+		x.env.Infra("write image: %v", e)
+		return
+	}
+	fdb, e := walletdb.Open("bdb", path, true, 10*time.Second, false)
+	if e != nil {
+		x.env.Infra("open image: %v", e)
+		return
+	}
+	defer fdb.Close()
+	e = walletdb.View(fdb, func(tx walletdb.ReadTx) error {
+		ns := tx.ReadBucket(waddrmgrNS)
+		fresh, e := waddrmgr.Open(ns, x.pubPass, x.params)
+		if e != nil {
+			return fmt.Errorf("open with the public passphrase that should be current: %w", e)
+		}
+		defer fresh.Close()
+		if e := fresh.Unlock(ns, x.privPass); e != nil {
+			return fmt.Errorf("unlock with the private passphrase that should be current: %w", e)
+		}
+		return nil
+	})
+	if e != nil {
+		if report {
+			sig := "passphrase-change-not-stored"
+			if wantFail {
+				sig = "failed-passphrase-change-half-applied"
+			}
+			x.fail(pre+sig+":after="+core.SigSafe(what), "after %s (returned %v) a manager freshly opened on the database: %v", what, err, e)
+		}
+		x.violated = true
+		return
+	}
+	// the running wallet
+	if e := x.w.Unlock(x.privPass, nil); e != nil {
+		if report {
+			x.fail(pre+"unlock-failed-after-passphrase-change:"+errClass(e), "after %s (returned %v) the running wallet refuses the private passphrase that should be current: %v", what, err, e)
+		}
+		x.violated = true
 	}
 }
 
